@@ -151,7 +151,7 @@ def jobs_for(tier, codec=CODEC, templates=None, reject=None, quick_reject=None):
                 jobs.append(dict(id='%s/%s%s/%s' % (codec, t['id'], ('.' + ty) if len(types) > 1 else '', q),
                                  template=t['id'], type=ty, query=q, tier=tier, codec=codec, expect='accept',
                                  nbytes=min(max(nbytes, t.get('nbytes', 0)), t.get('nbytes_cap', 99)),
-                                 numeric_enums=False))
+                                 pad=t.get('pad', 0), numeric_enums=False))
     for t in (reject if reject is not None else REJECT):
         if tier == 'quick' and t['id'] not in (quick_reject or QUICK_REJECT):
             continue
@@ -393,6 +393,12 @@ def make_harness(job, templates=None, reject=None):
         mp = st.mapper(ctx)
         k = ctx.choose('len', job['nbytes'] + 1)
         data = ctx.bytes('in', k)
+        pad = job.get('pad', 0) if k == job['nbytes'] else 0
+        if pad:
+            # a long hostile message: symbolic head (length determinants, flags) + concrete filler,
+            # so that a length octet the head claims can actually be consumed
+            data = data + bytes(pad)
+            k += pad
         ctx.describe = lambda m: dict(input=data.concrete(m).hex())
         src = prog.buffer(k, name='src')
         for c, b in zip(src.e, data.c):
